@@ -8,7 +8,12 @@ Pool == {V(<<"F", "o", "o">>, FALSE), V(<<"F", "O", "O">>, FALSE), V(<<"f", "o",
          V(<<"B", "a">>, FALSE), V(<<"B", "A">>, FALSE), V(<<"f", "n">>, TRUE), V(<<"F", "n">>, FALSE),
          V(<<"a">>, FALSE), V(<<"U+C4", "a">>, FALSE), V(<<"U+E4", "a">>, FALSE)}
 
-Init == vs = <<>> /\ s = <<>> /\ phase = "enum"
+\* enums wider than MaxVariants with SEVERAL groups of names that differ only by case (each group needs its exact arms)
+Foo == V(<<"F", "o", "o">>, FALSE)  FOO == V(<<"F", "O", "O">>, FALSE)  foo == V(<<"f", "o", "o">>, FALSE)
+Ba == V(<<"B", "a">>, FALSE)  BA == V(<<"B", "A">>, FALSE)
+WideEnums == {<<Foo, FOO, Ba, BA>>, <<Ba, Foo, BA, FOO>>, <<Foo, FOO, foo, Ba, BA, V(<<"a">>, FALSE)>>,
+              <<V(<<"f", "n">>, TRUE), V(<<"F", "n">>, FALSE), V(<<"U+C4", "a">>, FALSE), V(<<"U+E4", "a">>, FALSE), Ba>>}
+Init == vs \in {<<>>} \cup WideEnums /\ s = <<>> /\ phase = "enum"
 AddVariant == phase = "enum" /\ Len(vs) < MaxVariants /\ \E v \in Pool :
                  /\ \A j \in 1..Len(vs) : vs[j].name # v.name
                  /\ vs' = Append(vs, v) /\ UNCHANGED <<s, phase>>
